@@ -444,7 +444,7 @@ def run(prop, tier, seed, replay=None, embed=False):
                                timeout=900 if quick else 5400)
         if result["consumed"] != result["records"]:
             raise HarnessError("trace validation consumed %d of %d records" % (result["consumed"], result["records"]))
-        big_trace = None
+        big_trace, big_stats = None, None
         if prop == "C01" and replay is None and not embed:
             # volumes of thousands of blocks (files fragmented into more than 1024 extents: the
             # extent listing comes in batches): hand-written executions with composite write
@@ -463,6 +463,7 @@ def run(prop, tier, seed, replay=None, embed=False):
             result["failed"] = list(result["failed"]) + list(rbig["failed"])
             result["records"] += rbig["records"]
             result["traces"] += rbig["traces"]
+            big_stats = dict(executions=rbig["traces"], records=rbig["records"], blocks=nbmax)
 
         # group recorded events by execution for replay files / samples
         by_t = {}
@@ -573,6 +574,8 @@ def run(prop, tier, seed, replay=None, embed=False):
             exhaustive=False)
         if l1:
             coverage["rest_matrix_part_L5" if prop == "C17" else "controller_part_L1"] = l1
+        if big_stats:
+            coverage["large_volume_part"] = big_stats
         if replay is not None:
             coverage["states"] = coverage["states"] or 1
             coverage["transitions"] = coverage["transitions"] or 1
